@@ -113,15 +113,8 @@ func (self Compiler) getMangledFn(input string) (string, bool) {
 		return mangled, true
 	}
 
-	// TODO: i don't think that this is really reliable
-	for _, module := range self.modules {
-		for key, fn := range module {
-			if key == input {
-				return fn.MangledName, true
-			}
-		}
-	}
-
+	// Anything else is not a function of this module (for instance a builtin import):
+	// a function of the same name in an unrelated module must not be picked up.
 	return "", false
 }
 
